@@ -21,7 +21,7 @@
 **
 ** Oracle per case: see judge().  Allocator interposition: lib/vf_alloc.h.
 **
-** Parameters: part=own|static|embedded|views|all   replay="src=.. type=.. var=.. op=.."
+** Parameters: part=own|static|embedded|views|stackops|all   replay="src=.. type=.. var=.. op=.."
 */
 
 #include "vf_alloc.h"
@@ -1054,6 +1054,283 @@ static void enumerate_all(void) {
   }
 }
 
+/* ---- part=stackops: every resizing operation on stack Tuples (0..3 items) and stack Strings -------------------------
+**
+** Receiver: a Tuple whose struct and item array are compound literals of this frame (exactly what tuple(...) makes), or a
+** String whose struct is on the stack and whose characters are a writable stack buffer.  Operations: assign and concat from
+** every kind of source (stack tuple, heap Tuple, Array, List, Range, Slice, Filter, empty Filter, Filter of a Slice, Map, Zip,
+** Table, Tree, String, Int) of length 0..3, push, append, push_at (every index and one beyond), pop, pop_at (every index, -1,
+** one beyond), rem (every item, an absent one), resize 0..4 (0 = clear), sort.
+** Oracle: no free/realloc ever sees a pointer into the tuple or its item array; if the call raised, the tuple is slot for slot
+** what it was (same item-array address, same pointers, Terminal where it was); if it returned, the tuple is either untouched
+** or holds exactly the result of the operation (computed here from the source's own iteration), reached in place.
+*/
+
+enum { SK_STACK_TUPLE, SK_HEAP_TUPLE, SK_ARRAY, SK_LIST, SK_RANGE, SK_SLICE, SK_FILTER, SK_FILTER_EMPTY, SK_FILTER_OF_SLICE,
+       SK_MAP, SK_ZIP, SK_TABLE, SK_TREE, SK_STRING, SK_INT, NSK };
+static const char* skname[NSK] = { "stack-tuple", "heap-tuple", "array", "list", "range", "slice", "filter", "empty-filter", "filter-of-slice",
+  "map", "zip", "table", "tree", "string", "int" };
+
+enum { TO_ASSIGN, TO_CONCAT, TO_PUSH, TO_APPEND, TO_PUSH_AT, TO_POP, TO_POP_AT, TO_REM, TO_RESIZE, TO_SORT, NTO };
+static const char* toname[NTO] = { "assign", "concat", "push", "append", "push_at", "pop", "pop_at", "rem", "resize", "sort" };
+
+enum { X_STRICT, X_INDEX, X_ABSENT, X_ANY };     /* which exceptions count as a proper refusal */
+
+static var FnFalse;
+static var fn_false(var args) { return NULL; }
+static uint64_t so_refused, so_noop, so_inplace;
+
+static int exc_in_class(var e, int xc) {
+  if (e == ValueError || e == ResourceError) return 1;
+  if (xc == X_INDEX) return e == IndexOutOfBoundsError;
+  if (xc == X_ABSENT) return e == KeyError || e == IndexOutOfBoundsError;
+  return xc == X_ANY;
+}
+
+static void so_mark(const char* key) { if (vf_set_put(&seen_nontrivial, key, 1) < 0) vf.nontrivial++; }
+
+static int cmp_int_ptr(const void* a, const void* b) {
+  int64_t x = c_int(*(var*)a), y = c_int(*(var*)b); return x < y ? -1 : x > y;
+}
+
+/* one stack-tuple case; arg = source length m (assign/concat), index (push_at/pop_at/rem), size (resize) */
+static void stack_tuple_case(int n, int op, int sk, int arg) {
+  char kase[200], lab[200], key[200];
+  if (op == TO_ASSIGN || op == TO_CONCAT) snprintf(kase, sizeof kase, "stackop recv=tuple n=%d op=%s src=%s arg=%d", n, toname[op], skname[sk], arg);
+  else snprintf(kase, sizeof kase, "stackop recv=tuple n=%d op=%s src=- arg=%d", n, toname[op], arg);
+  if (vf.replay && strcmp(kase, vf.replay) != 0) return;
+  vf_set_cur("%s", kase);
+  vf_watchdog(20);
+  if (vf_want_sample()) vf_sample("%s", kase);
+  snprintf(key, sizeof key, "stackop/tuple/%d/%s/%s/%d", n, toname[op], (op == TO_ASSIGN || op == TO_CONCAT) ? skname[sk] : "-", arg);
+#define SOLAB(sym) (snprintf(lab, sizeof lab, "stack/Tuple/%s%s%s/%s", toname[op], (op == TO_ASSIGN || op == TO_CONCAT) ? "-from-" : "", \
+                    (op == TO_ASSIGN || op == TO_CONCAT) ? skname[sk] : "", sym), lab)
+
+  /* receiver: values 3,1,2 so that sort has something to do */
+  static const int rv[3] = { 3, 1, 2 };
+  var ritems[6]; var before[6];
+  for (int i = 0; i < n; i++) ritems[i] = K[rv[i]];
+  ritems[n] = Terminal; ritems[n + 1] = NULL; ritems[n + 2] = NULL;
+  memcpy(before, ritems, sizeof before);
+  struct Tuple* rt = $(Tuple, ritems);
+
+  /* sources (all made here: the stack ones live in this frame) */
+  int m = (op == TO_ASSIGN || op == TO_CONCAT) ? arg : 0;
+  var sitems[5]; for (int i = 0; i < m; i++) sitems[i] = K[4 + i]; sitems[m] = Terminal;
+  struct Tuple* s_tuple = $(Tuple, sitems);
+  var src = NULL;
+  var v_slice = NULL, v_filter = NULL, v_fempty = NULL, v_fslice = NULL, v_map = NULL, v_zip = NULL, v_range = NULL;
+  if (op == TO_ASSIGN || op == TO_CONCAT) {
+    CONT = new_with(Array, tuple(Int));
+    for (int i = 0; i < m; i++) push(CONT, K[4 + i]);
+    v_slice = slice(CONT); v_filter = filter(CONT, FnTrue); v_fempty = filter(CONT, FnFalse); v_fslice = filter(v_slice, FnTrue);
+    v_map = map(CONT, FnIdent); v_zip = zip(CONT, CONT); v_range = range($I(m));
+    switch (sk) {
+      case SK_STACK_TUPLE: src = s_tuple; break;
+      case SK_HEAP_TUPLE: AUX = new_with(Tuple, s_tuple); src = AUX; break;
+      case SK_ARRAY: src = CONT; break;
+      case SK_LIST: AUX = new_with(List, tuple(Int)); for (int i = 0; i < m; i++) push(AUX, K[4 + i]); src = AUX; break;
+      case SK_RANGE: src = v_range; break;
+      case SK_SLICE: src = v_slice; break;
+      case SK_FILTER: src = v_filter; break;
+      case SK_FILTER_EMPTY: src = v_fempty; break;
+      case SK_FILTER_OF_SLICE: src = v_fslice; break;
+      case SK_MAP: src = v_map; break;
+      case SK_ZIP: src = v_zip; break;
+      case SK_TABLE: AUX = new_with(Table, tuple(Int, Int)); for (int i = 0; i < m; i++) set(AUX, K[4 + i], K[i]); src = AUX; break;
+      case SK_TREE: AUX = new_with(Tree, tuple(Int, Int)); for (int i = 0; i < m; i++) set(AUX, K[4 + i], K[i]); src = AUX; break;
+      case SK_STRING: src = m == 0 ? (var)$S("") : m == 1 ? (var)$S("x") : (var)$S("xyz"); break;
+      case SK_INT: src = K[m]; break;
+    }
+  }
+
+  /* what the source yields, in order (pointers); iterable = 0 if walking it raises (String, Int) */
+  var yielded[8]; volatile int ny = 0; int iterable = 1;
+  if (src) {
+    if (!implements_method(src, Iter, iter_init)) iterable = 0;        /* foreach on such an object dereferences NULL */
+    else {
+      var e0 = VF_CATCH({ foreach (it in src) { if (ny < 8) { yielded[ny] = it; ny++; } } });
+      if (e0) { iterable = 0; ny = 0; }
+    }
+  }
+
+  /* the result of the operation if it were carried out (pointers, Terminal-terminated) */
+  var model[12]; int nm = -1;        /* nm = -1: no successful outcome exists for these arguments */
+  int xc = X_STRICT;
+  switch (op) {
+    case TO_ASSIGN: if (iterable) { nm = 0; for (int i = 0; i < ny; i++) model[nm++] = yielded[i]; } else xc = X_ANY; break;
+    case TO_CONCAT: if (iterable) { nm = 0; for (int i = 0; i < n; i++) model[nm++] = before[i]; for (int i = 0; i < ny; i++) model[nm++] = yielded[i]; } else xc = X_ANY;
+      if (!implements_method(src, Len, len)) xc = X_ANY;       /* Tuple concat asks the source for its length first (a Filter has none): a type refusal */
+      break;
+    case TO_PUSH: case TO_APPEND: nm = 0; for (int i = 0; i < n; i++) model[nm++] = before[i]; model[nm++] = K[9]; break;
+    case TO_PUSH_AT: if (arg >= 0 && arg < n) { nm = 0; for (int i = 0; i < n; i++) { if (i == arg) model[nm++] = K[9]; model[nm++] = before[i]; } } else xc = X_INDEX; break;
+    case TO_POP: if (n > 0) { nm = 0; for (int i = 0; i < n - 1; i++) model[nm++] = before[i]; } else xc = X_INDEX; break;
+    case TO_POP_AT: { int idx = arg < 0 ? n + arg : arg;
+      if (idx >= 0 && idx < n) { nm = 0; for (int i = 0; i < n; i++) if (i != idx) model[nm++] = before[i]; } else xc = X_INDEX; break; }
+    case TO_REM: if (arg < n) { nm = 0; for (int i = 0; i < n; i++) if (i != arg) model[nm++] = before[i]; } else xc = X_ABSENT; break;
+    case TO_RESIZE: if (arg < n) { nm = 0; for (int i = 0; i < arg; i++) model[nm++] = before[i]; } else xc = X_ANY; break;   /* growth: convention not fixed */
+    case TO_SORT: nm = n; memcpy(model, before, n * sizeof(var)); qsort(model, n, sizeof(var), cmp_int_ptr); break;
+  }
+
+  vf.evaluations++; vf.executions++;
+  al_begin();
+  al_forbid(header(rt), sizeof(struct Header) + sizeof(struct Tuple), "the stack Tuple itself");
+  al_forbid(ritems, sizeof ritems, "the item array of a stack Tuple");
+  al_start();
+  var e = VF_CATCH({
+    switch (op) {
+      case TO_ASSIGN: assign(rt, src); break;
+      case TO_CONCAT: concat(rt, src); break;
+      case TO_PUSH: push(rt, K[9]); break;
+      case TO_APPEND: append(rt, K[9]); break;
+      case TO_PUSH_AT: push_at(rt, K[9], $I(arg)); break;
+      case TO_POP: pop(rt); break;
+      case TO_POP_AT: pop_at(rt, $I(arg)); break;
+      case TO_REM: rem(rt, arg < n ? before[arg] : K[11]); break;
+      case TO_RESIZE: resize(rt, (size_t)arg); break;
+      case TO_SORT: sort(rt); break;
+    }
+  });
+  al_stop();
+
+  int unchanged = rt->items == ritems && memcmp(before, ritems, sizeof before) == 0;
+  char was[64] = "", now[64] = ""; size_t a = 0, b = 0;
+  for (int i = 0; i < n; i++) a += snprintf(was + a, sizeof was - a, "%s%d", i ? "," : "", rv[i]);
+  if (rt->items == ritems) for (int i = 0; i < 5 && ritems[i] != Terminal && ritems[i] != NULL; i++) b += snprintf(now + b, sizeof now - b, "%s%" PRId64, i ? "," : "", c_int(ritems[i]));
+  else snprintf(now, sizeof now, "<item array replaced>");
+
+  if (al_forb_hits) {
+    vf_violation(SOLAB("freed-nonheap-memory"), kase, "%s passed a pointer %ld bytes into %s to %s", toname[op], al_forb_off, al_forb_what, al_forb_kind ? "realloc" : "free");
+  } else if (e) {
+    so_mark(key);
+    if (!unchanged) {
+      vf_violation(SOLAB("refused-but-changed"), kase, "%s raised %s but the stack tuple (%s) is now (%s)%s", toname[op], vf_exc_name(e), was, now,
+        header(rt)->type == Tuple ? "" : " and its header changed");
+    } else if (!exc_in_class(e, xc)) {
+      char sym[64]; snprintf(sym, sizeof sym, "wrong-exception-%s", vf_exc_name(e));
+      vf_violation(SOLAB(sym), kase, "%s on a stack tuple raised %s", toname[op], vf_exc_name(e));
+    } else { so_refused++; char o[96]; snprintf(o, sizeof o, "stackop/tuple/%s/%s", toname[op], vf_exc_name(e)); if (vf_set_put(&seen_outcomes, o, 1) < 0) vf.outcomes++; }
+  } else if (unchanged) {
+    so_noop++;
+    /* returning without doing anything is only all right if there was nothing to do or nothing that could be done in place */
+    char o[96]; snprintf(o, sizeof o, "stackop/tuple/%s/returned-unchanged", toname[op]); if (vf_set_put(&seen_outcomes, o, 1) < 0) vf.outcomes++;
+  } else {
+    int ok = nm >= 0 && rt->items == ritems;
+    for (int i = 0; ok && i < nm; i++) ok = ritems[i] == model[i];
+    ok = ok && ritems[nm] == Terminal;
+    if (!ok) vf_violation(SOLAB("returned-with-wrong-items"), kase, "%s returned normally; the stack tuple (%s) is now (%s), which is neither untouched nor the result of the operation", toname[op], was, now);
+    else { so_inplace++; so_mark(key); char o[96]; snprintf(o, sizeof o, "stackop/tuple/%s/done-in-place", toname[op]); if (vf_set_put(&seen_outcomes, o, 1) < 0) vf.outcomes++; }
+  }
+  if (header(rt)->type != Tuple) vf_violation(SOLAB("header-changed"), kase, "the stack tuple's header no longer says Tuple");
+#if CELLO_ALLOC_CHECK == 1
+  if ((intptr_t)header(rt)->alloc != AllocStack) vf_violation(SOLAB("header-changed"), kase, "the stack tuple's allocation class changed");
+#endif
+  if (AUX) { var e2 = VF_CATCH(del(AUX)); (void)e2; AUX = NULL; }
+  if (CONT) { var e2 = VF_CATCH(del(CONT)); (void)e2; CONT = NULL; }
+#undef SOLAB
+}
+
+enum { RO_ASSIGN, RO_CONCAT, RO_APPEND, RO_RESIZE, RO_PRINT_TO, RO_REM, NRO };
+static const char* roname[NRO] = { "assign", "concat", "append", "resize", "print_to", "rem" };
+
+/* one stack-String case: receiver "" or "abc" in a writable stack buffer */
+static void stack_string_case(int rlen, int op, int arg) {
+  static const char* srcs[] = { "", "ab", "abc", "abcdef", "b", "zz" };
+  char kase[200], lab[200], key[200];
+  snprintf(kase, sizeof kase, "stackop recv=string n=%d op=%s src=- arg=%d", rlen, roname[op], arg);
+  if (vf.replay && strcmp(kase, vf.replay) != 0) return;
+  vf_set_cur("%s", kase);
+  if (vf_want_sample()) vf_sample("%s", kase);
+  snprintf(key, sizeof key, "stackop/string/%d/%s/%d", rlen, roname[op], arg);
+#define SOLAB(sym) (snprintf(lab, sizeof lab, "stack/String/%s-buffer/%s", roname[op], sym), lab)
+  char buf[16], was[16]; memset(buf, 0, sizeof buf);
+  if (rlen) strcpy(buf, "abc");
+  memcpy(was, buf, sizeof buf);
+  struct String* rs = $S(buf);
+  AUX = new(String, $S("abcdef"));
+  /* arg: index into srcs, 6 = heap String, 7 = Int */
+  var src = arg < 6 ? (var)$S((char*)srcs[arg < 6 ? arg : 0]) : arg == 6 ? AUX : K[4];
+  const char* model = NULL; char mb[32]; int xc = X_STRICT;
+  switch (op) {
+    case RO_ASSIGN: if (arg == 7) xc = X_ANY; break;                     /* every assign would need to own the buffer */
+    case RO_CONCAT: case RO_APPEND: if (arg == 7) xc = X_ANY; break;
+    case RO_RESIZE: case RO_PRINT_TO: break;
+    case RO_REM: {
+      const char* sub = arg < 6 ? srcs[arg] : arg == 6 ? "abcdef" : NULL;
+      if (!sub) { xc = X_ANY; break; }
+      char* at = strstr(was, sub);
+      if (!at) { xc = X_ABSENT; break; }
+      snprintf(mb, sizeof mb, "%.*s%s", (int)(at - was), was, at + strlen(sub)); model = mb;   /* in place: no reallocation needed */
+      break; }
+  }
+  vf.evaluations++; vf.executions++;
+  al_begin();
+  al_forbid(header(rs), sizeof(struct Header) + sizeof(struct String), "the stack String itself");
+  al_forbid(buf, sizeof buf, "the character buffer of a stack String");
+  al_start();
+  var e = VF_CATCH({
+    switch (op) {
+      case RO_ASSIGN: assign(rs, src); break;
+      case RO_CONCAT: concat(rs, src); break;
+      case RO_APPEND: append(rs, src); break;
+      case RO_RESIZE: resize(rs, (size_t)arg); break;
+      case RO_PRINT_TO: print_to(rs, 0, "%i", $I(arg)); break;
+      case RO_REM: rem(rs, src); break;
+    }
+  });
+  al_stop();
+  int unchanged = rs->val == buf && memcmp(was, buf, sizeof buf) == 0;
+  if (al_forb_hits) {
+    vf_violation(SOLAB("freed-nonheap-memory"), kase, "%s passed a pointer %ld bytes into %s to %s", roname[op], al_forb_off, al_forb_what, al_forb_kind ? "realloc" : "free");
+  } else if (e) {
+    so_mark(key);
+    if (!unchanged) vf_violation(SOLAB("refused-but-changed"), kase, "%s raised %s but the stack string \"%s\" is now \"%.15s\"", roname[op], vf_exc_name(e), was, rs->val == buf ? buf : "<buffer replaced>");
+    else if (!exc_in_class(e, xc)) { char sym[64]; snprintf(sym, sizeof sym, "wrong-exception-%s", vf_exc_name(e)); vf_violation(SOLAB(sym), kase, "%s on a stack string raised %s", roname[op], vf_exc_name(e)); }
+    else so_refused++;
+  } else if (unchanged) {
+    so_noop++;
+  } else {
+    if (!(model && rs->val == buf && strcmp(buf, model) == 0))
+      vf_violation(SOLAB("returned-with-wrong-value"), kase, "%s returned normally; the stack string \"%s\" is now \"%.15s\" (expected %s%s%s)", roname[op], was,
+        rs->val == buf ? buf : "<buffer replaced>", model ? "\"" : "", model ? model : "a refusal or no change", model ? "\"" : "");
+    else { so_inplace++; so_mark(key); }
+  }
+  if (header(rs)->type != String) vf_violation(SOLAB("header-changed"), kase, "the stack string's header no longer says String");
+  { var e2 = VF_CATCH(del(AUX)); (void)e2; AUX = NULL; }
+#undef SOLAB
+}
+
+static void enumerate_stackops(void) {
+  int thorough = strcmp(vf.tier, "thorough") == 0;
+  vf.phase = "stackops";
+  FnFalse = new_raw(Function); ((struct Function*)FnFalse)->func = fn_false;
+  for (int n = 0; n <= 3; n++) {
+    for (int op = 0; op < NTO; op++) {
+      switch (op) {
+        case TO_ASSIGN: case TO_CONCAT:
+          for (int sk = 0; sk < NSK; sk++) for (int m = 0; m <= 3; m++) {
+            if (!thorough && m == 2) continue;
+            /* assign(tuple, x) with x neither Len+Get nor Iter (String, Int) runs foreach on it inside the library: instance(x, Iter)
+               is NULL and is dereferenced (SIGSEGV on heap tuples as well) - reported as a C12 candidate, not executed here */
+            if (op == TO_ASSIGN && (sk == SK_STRING || sk == SK_INT)) continue;
+            stack_tuple_case(n, op, sk, m);
+          }
+          break;
+        case TO_PUSH: case TO_APPEND: case TO_POP: case TO_SORT: stack_tuple_case(n, op, 0, 0); break;
+        case TO_PUSH_AT: for (int i = 0; i <= n + 1; i++) stack_tuple_case(n, op, 0, i); break;
+        case TO_POP_AT: for (int i = -1; i <= n; i++) stack_tuple_case(n, op, 0, i); break;
+        case TO_REM: for (int i = 0; i <= n; i++) stack_tuple_case(n, op, 0, i); break;
+        case TO_RESIZE: for (int k = 0; k <= 4; k++) stack_tuple_case(n, op, 0, k); break;
+      }
+    }
+  }
+  for (int rlen = 0; rlen <= 3; rlen += 3) {
+    for (int a = 0; a <= 7; a++) { stack_string_case(rlen, RO_ASSIGN, a); stack_string_case(rlen, RO_CONCAT, a); stack_string_case(rlen, RO_APPEND, a); stack_string_case(rlen, RO_REM, a); }
+    for (int k = 0; k <= 6; k++) stack_string_case(rlen, RO_RESIZE, k);
+    for (int v = 0; v <= 1; v++) stack_string_case(rlen, RO_PRINT_TO, v * 12345);
+  }
+}
+
 static void add_static(var o, const char* nm) { STATICS[nstatics] = o; static_names[nstatics] = nm; nstatics++; }
 
 int main(int argc, char** argv) {
@@ -1107,6 +1384,10 @@ int main(int argc, char** argv) {
   add_static(New, "New"); add_static(Alloc, "Alloc"); add_static(Exception, "Exception"); add_static(ValueError, "ValueError");
   add_static(ResourceError, "ResourceError"); add_static(GC, "GC");
 
+  if (vf.replay && strncmp(vf.replay, "stackop ", 8) == 0) {
+    enumerate_stackops();
+    vf_finish();
+  }
   if (vf.replay) {
     char sn[64], tn[64], on[64]; int v = 0;
     if (sscanf(vf.replay, "src=%63s type=%63s var=%d op=%63s", sn, tn, &v, on) == 4) {
@@ -1119,8 +1400,12 @@ int main(int argc, char** argv) {
     vf_param("part", "all");
   }
 
-  enumerate_all();
+  if (!vf_param_is("part", "stackops", "all")) enumerate_all();
+  if (part_is("stackops")) enumerate_stackops();
 
+  vf_extra("stackops_refused_unchanged", "%" PRIu64, so_refused);
+  vf_extra("stackops_returned_unchanged", "%" PRIu64, so_noop);
+  vf_extra("stackops_done_in_place", "%" PRIu64, so_inplace);
   vf_extra("refused_with_exception", "%" PRIu64, n_refused);
   vf_extra("ignored_noop", "%" PRIu64, n_noop);
   vf_extra("released_exactly_once", "%" PRIu64, n_released);
